@@ -125,6 +125,8 @@ def run(tier, seed, replay=None):
     rep = Report("C02", tier, seed)
     rng = Rng(seed)
     proof_stage(rep, "C02")
+    # tie by translation (T5): Subscriber, the slot between a hot source and its observer, parsed from /repo/src, is the slot machine
+    proof_stage(rep, "C02src", limit=400)
     if not build_stage(rep):
         return rep.finish()
     if replay:
